@@ -414,6 +414,9 @@ def resize_image_to_macro_block(
 def _load_images(frames_dir: str) -> list:
     frames = [
         os.path.join(frames_dir, frame)
-        for frame in sorted(os.listdir(frames_dir))
+        # frame_100.png must come after frame_99.png: shorter names first
+        for frame in sorted(
+            os.listdir(frames_dir), key=lambda name: (len(name), name)
+        )
     ]
     return [imageio.imread(frame) for frame in frames]
